@@ -91,4 +91,227 @@ def serverNameDomain : List (Bool × List SniSess) :=
 def serverNameModel (i : Bool × List SniSess) : List (Option Name) :=
   sessions (if i.1 then some .explicit else none) i.2
 
+/-! ### negotiator.go: the addresses in the peer's stream header -/
+
+/-- the numbering of the kinds of `from` on the protocol line and in the tables: absent, the
+remote address, another domain of the same length, another domain -/
+def hfromOfCode : Nat → Option HFrom
+  | 0 => some .absent
+  | 1 => some .same
+  | 2 => some .differ
+  | 3 => some .differ
+  | _ => none
+
+/-- the `to`s of the probe: none, `user@d0`, `d0` (the own address of the c2s / s2s session),
+another domain of the same shape, another localpart, a resourcepart, a domain of another shape,
+another bare domain -/
+def headerTos : List (Option Addr) :=
+  [none, some ⟨1, 0, 0⟩, some ⟨0, 0, 0⟩, some ⟨1, 1, 0⟩, some ⟨2, 0, 0⟩, some ⟨1, 0, 1⟩, some ⟨1, 4, 0⟩,
+   some ⟨0, 1, 0⟩]
+
+/-- (s2s?, the header inside TLS?, kind of `from`, index of the `to` in `headerTos`); a foreign
+`from` without `to` -/
+def headerAddressDomain : List (Bool × Bool × Nat × Nat) :=
+  product [false, true] (product [false, true]
+    (product [0, 1] (List.range headerTos.length) ++ product [2, 3] [0]))
+
+/-- a whole `NewSession` (own address `user@d0` or `d0`, remote `d1`, only STARTTLS configured):
+header, STARTTLS required, `<proceed/>`, inside TLS a header and an empty list — the probed
+header is the first or the second one.  Result: the session the model ends in and the outcome. -/
+def headerAddressRun (rr rt sk : Bool) (i : Bool × Bool × Nat × Nat) : Option (Sess × Outcome) :=
+  match hfromOfCode i.2.2.1, headerTos[i.2.2.2]? with
+  | some f, some to =>
+    let h : Unit := .hdrA f to
+    let inp : Input :=
+      { clear := [[if i.2.1 then .hdr true else h, .list [⟨0, true, true⟩]], [.proceed]],
+        prot := [.unit (if i.2.1 then h else .hdr true), .unit (.list [])],
+        oracle := [(0, ⟨0, false, false⟩)] }
+    some (loop { rr := rr, rt := rt, sk := sk, others := [], tee := false } 40 false
+      (init ⟨0, 1, none, .netConn⟩ (if i.1 then S2S else 0) inp))
+  | _, _ => none
+
+def headerAddressModel (rr rt sk : Bool) (i : Bool × Bool × Nat × Nat) : Option (List Ev × Outcome) :=
+  (headerAddressRun rr rt sk i).map fun r => (r.1.trace.reverse.filter Ev.observable, r.2)
+
+def headerLocalModel (rr rt sk : Bool) (i : Bool × Bool × Nat × Nat) : Nat × Nat × Nat :=
+  match headerAddressRun rr rt sk i with
+  | some r => (r.1.laddr.loc, r.1.laddr.dom, r.1.laddr.res)
+  | none => (0, 0, 0)
+
+/-- what the model answers over `headerAddressDomain`, written out (proved equal to
+`headerAddressDomain.map headerAddressModel` for every value of the three features.go flags in
+`Props/C02.lean`): the regenerated table is compared with this literal, so that a table that
+differs is refuted by comparing two lists of constants -/
+def headerAddressExpected : List ((Bool × Bool × Nat × Nat) × Option (List Ev × Outcome)) := [
+  ((false, false, 0, 0), some ([.wHdr false, .wStartTLS false, .hello (.dom 0), .wHdr true], .done 5 true true)),
+  ((false, false, 0, 1), some ([.wHdr false, .wStartTLS false, .hello (.dom 0), .wHdr true], .done 5 true true)),
+  ((false, false, 0, 2), some ([.wHdr false], .stop (.err .proto))),
+  ((false, false, 0, 3), some ([.wHdr false], .stop (.err .proto))),
+  ((false, false, 0, 4), some ([.wHdr false], .stop (.err .proto))),
+  ((false, false, 0, 5), some ([.wHdr false], .stop (.err .proto))),
+  ((false, false, 0, 6), some ([.wHdr false], .stop (.err .proto))),
+  ((false, false, 0, 7), some ([.wHdr false], .stop (.err .proto))),
+  ((false, false, 1, 0), some ([.wHdr false, .wStartTLS false, .hello (.dom 0), .wHdr true], .done 5 true true)),
+  ((false, false, 1, 1), some ([.wHdr false, .wStartTLS false, .hello (.dom 0), .wHdr true], .done 5 true true)),
+  ((false, false, 1, 2), some ([.wHdr false], .stop (.err .proto))),
+  ((false, false, 1, 3), some ([.wHdr false], .stop (.err .proto))),
+  ((false, false, 1, 4), some ([.wHdr false], .stop (.err .proto))),
+  ((false, false, 1, 5), some ([.wHdr false], .stop (.err .proto))),
+  ((false, false, 1, 6), some ([.wHdr false], .stop (.err .proto))),
+  ((false, false, 1, 7), some ([.wHdr false], .stop (.err .proto))),
+  ((false, false, 2, 0), some ([.wHdr false], .stop (.err .proto))),
+  ((false, false, 3, 0), some ([.wHdr false], .stop (.err .proto))),
+  ((false, true, 0, 0), some ([.wHdr false, .wStartTLS false, .hello (.dom 0), .wHdr true], .done 5 true true)),
+  ((false, true, 0, 1), some ([.wHdr false, .wStartTLS false, .hello (.dom 0), .wHdr true], .done 5 true true)),
+  ((false, true, 0, 2), some ([.wHdr false, .wStartTLS false, .hello (.dom 0), .wHdr true], .stop (.err .proto))),
+  ((false, true, 0, 3), some ([.wHdr false, .wStartTLS false, .hello (.dom 0), .wHdr true], .stop (.err .proto))),
+  ((false, true, 0, 4), some ([.wHdr false, .wStartTLS false, .hello (.dom 0), .wHdr true], .stop (.err .proto))),
+  ((false, true, 0, 5), some ([.wHdr false, .wStartTLS false, .hello (.dom 0), .wHdr true], .stop (.err .proto))),
+  ((false, true, 0, 6), some ([.wHdr false, .wStartTLS false, .hello (.dom 0), .wHdr true], .stop (.err .proto))),
+  ((false, true, 0, 7), some ([.wHdr false, .wStartTLS false, .hello (.dom 0), .wHdr true], .stop (.err .proto))),
+  ((false, true, 1, 0), some ([.wHdr false, .wStartTLS false, .hello (.dom 0), .wHdr true], .done 5 true true)),
+  ((false, true, 1, 1), some ([.wHdr false, .wStartTLS false, .hello (.dom 0), .wHdr true], .done 5 true true)),
+  ((false, true, 1, 2), some ([.wHdr false, .wStartTLS false, .hello (.dom 0), .wHdr true], .stop (.err .proto))),
+  ((false, true, 1, 3), some ([.wHdr false, .wStartTLS false, .hello (.dom 0), .wHdr true], .stop (.err .proto))),
+  ((false, true, 1, 4), some ([.wHdr false, .wStartTLS false, .hello (.dom 0), .wHdr true], .stop (.err .proto))),
+  ((false, true, 1, 5), some ([.wHdr false, .wStartTLS false, .hello (.dom 0), .wHdr true], .stop (.err .proto))),
+  ((false, true, 1, 6), some ([.wHdr false, .wStartTLS false, .hello (.dom 0), .wHdr true], .stop (.err .proto))),
+  ((false, true, 1, 7), some ([.wHdr false, .wStartTLS false, .hello (.dom 0), .wHdr true], .stop (.err .proto))),
+  ((false, true, 2, 0), some ([.wHdr false, .wStartTLS false, .hello (.dom 0), .wHdr true], .stop (.err .proto))),
+  ((false, true, 3, 0), some ([.wHdr false, .wStartTLS false, .hello (.dom 0), .wHdr true], .stop (.err .proto))),
+  ((true, false, 0, 0), some ([.wHdr false, .wStartTLS false, .hello (.dom 0), .wHdr true], .done 69 true true)),
+  ((true, false, 0, 1), some ([.wHdr false], .stop (.err .proto))),
+  ((true, false, 0, 2), some ([.wHdr false, .wStartTLS false, .hello (.dom 0), .wHdr true], .done 69 true true)),
+  ((true, false, 0, 3), some ([.wHdr false], .stop (.err .proto))),
+  ((true, false, 0, 4), some ([.wHdr false], .stop (.err .proto))),
+  ((true, false, 0, 5), some ([.wHdr false], .stop (.err .proto))),
+  ((true, false, 0, 6), some ([.wHdr false], .stop (.err .proto))),
+  ((true, false, 0, 7), some ([.wHdr false], .stop (.err .proto))),
+  ((true, false, 1, 0), some ([.wHdr false, .wStartTLS false, .hello (.dom 0), .wHdr true], .done 69 true true)),
+  ((true, false, 1, 1), some ([.wHdr false], .stop (.err .proto))),
+  ((true, false, 1, 2), some ([.wHdr false, .wStartTLS false, .hello (.dom 0), .wHdr true], .done 69 true true)),
+  ((true, false, 1, 3), some ([.wHdr false], .stop (.err .proto))),
+  ((true, false, 1, 4), some ([.wHdr false], .stop (.err .proto))),
+  ((true, false, 1, 5), some ([.wHdr false], .stop (.err .proto))),
+  ((true, false, 1, 6), some ([.wHdr false], .stop (.err .proto))),
+  ((true, false, 1, 7), some ([.wHdr false], .stop (.err .proto))),
+  ((true, false, 2, 0), some ([.wHdr false], .stop (.err .proto))),
+  ((true, false, 3, 0), some ([.wHdr false], .stop (.err .proto))),
+  ((true, true, 0, 0), some ([.wHdr false, .wStartTLS false, .hello (.dom 0), .wHdr true], .done 69 true true)),
+  ((true, true, 0, 1), some ([.wHdr false, .wStartTLS false, .hello (.dom 0), .wHdr true], .stop (.err .proto))),
+  ((true, true, 0, 2), some ([.wHdr false, .wStartTLS false, .hello (.dom 0), .wHdr true], .done 69 true true)),
+  ((true, true, 0, 3), some ([.wHdr false, .wStartTLS false, .hello (.dom 0), .wHdr true], .stop (.err .proto))),
+  ((true, true, 0, 4), some ([.wHdr false, .wStartTLS false, .hello (.dom 0), .wHdr true], .stop (.err .proto))),
+  ((true, true, 0, 5), some ([.wHdr false, .wStartTLS false, .hello (.dom 0), .wHdr true], .stop (.err .proto))),
+  ((true, true, 0, 6), some ([.wHdr false, .wStartTLS false, .hello (.dom 0), .wHdr true], .stop (.err .proto))),
+  ((true, true, 0, 7), some ([.wHdr false, .wStartTLS false, .hello (.dom 0), .wHdr true], .stop (.err .proto))),
+  ((true, true, 1, 0), some ([.wHdr false, .wStartTLS false, .hello (.dom 0), .wHdr true], .done 69 true true)),
+  ((true, true, 1, 1), some ([.wHdr false, .wStartTLS false, .hello (.dom 0), .wHdr true], .stop (.err .proto))),
+  ((true, true, 1, 2), some ([.wHdr false, .wStartTLS false, .hello (.dom 0), .wHdr true], .done 69 true true)),
+  ((true, true, 1, 3), some ([.wHdr false, .wStartTLS false, .hello (.dom 0), .wHdr true], .stop (.err .proto))),
+  ((true, true, 1, 4), some ([.wHdr false, .wStartTLS false, .hello (.dom 0), .wHdr true], .stop (.err .proto))),
+  ((true, true, 1, 5), some ([.wHdr false, .wStartTLS false, .hello (.dom 0), .wHdr true], .stop (.err .proto))),
+  ((true, true, 1, 6), some ([.wHdr false, .wStartTLS false, .hello (.dom 0), .wHdr true], .stop (.err .proto))),
+  ((true, true, 1, 7), some ([.wHdr false, .wStartTLS false, .hello (.dom 0), .wHdr true], .stop (.err .proto))),
+  ((true, true, 2, 0), some ([.wHdr false, .wStartTLS false, .hello (.dom 0), .wHdr true], .stop (.err .proto))),
+  ((true, true, 3, 0), some ([.wHdr false, .wStartTLS false, .hello (.dom 0), .wHdr true], .stop (.err .proto)))]
+
+def headerLocalExpected : List ((Bool × Bool × Nat × Nat) × (Nat × Nat × Nat)) := [
+  ((false, false, 0, 0), (1, 0, 0)),
+  ((false, false, 0, 1), (1, 0, 0)),
+  ((false, false, 0, 2), (1, 0, 0)),
+  ((false, false, 0, 3), (1, 0, 0)),
+  ((false, false, 0, 4), (1, 0, 0)),
+  ((false, false, 0, 5), (1, 0, 0)),
+  ((false, false, 0, 6), (1, 0, 0)),
+  ((false, false, 0, 7), (1, 0, 0)),
+  ((false, false, 1, 0), (1, 0, 0)),
+  ((false, false, 1, 1), (1, 0, 0)),
+  ((false, false, 1, 2), (1, 0, 0)),
+  ((false, false, 1, 3), (1, 0, 0)),
+  ((false, false, 1, 4), (1, 0, 0)),
+  ((false, false, 1, 5), (1, 0, 0)),
+  ((false, false, 1, 6), (1, 0, 0)),
+  ((false, false, 1, 7), (1, 0, 0)),
+  ((false, false, 2, 0), (1, 0, 0)),
+  ((false, false, 3, 0), (1, 0, 0)),
+  ((false, true, 0, 0), (1, 0, 0)),
+  ((false, true, 0, 1), (1, 0, 0)),
+  ((false, true, 0, 2), (1, 0, 0)),
+  ((false, true, 0, 3), (1, 0, 0)),
+  ((false, true, 0, 4), (1, 0, 0)),
+  ((false, true, 0, 5), (1, 0, 0)),
+  ((false, true, 0, 6), (1, 0, 0)),
+  ((false, true, 0, 7), (1, 0, 0)),
+  ((false, true, 1, 0), (1, 0, 0)),
+  ((false, true, 1, 1), (1, 0, 0)),
+  ((false, true, 1, 2), (1, 0, 0)),
+  ((false, true, 1, 3), (1, 0, 0)),
+  ((false, true, 1, 4), (1, 0, 0)),
+  ((false, true, 1, 5), (1, 0, 0)),
+  ((false, true, 1, 6), (1, 0, 0)),
+  ((false, true, 1, 7), (1, 0, 0)),
+  ((false, true, 2, 0), (1, 0, 0)),
+  ((false, true, 3, 0), (1, 0, 0)),
+  ((true, false, 0, 0), (0, 0, 0)),
+  ((true, false, 0, 1), (0, 0, 0)),
+  ((true, false, 0, 2), (0, 0, 0)),
+  ((true, false, 0, 3), (0, 0, 0)),
+  ((true, false, 0, 4), (0, 0, 0)),
+  ((true, false, 0, 5), (0, 0, 0)),
+  ((true, false, 0, 6), (0, 0, 0)),
+  ((true, false, 0, 7), (0, 0, 0)),
+  ((true, false, 1, 0), (0, 0, 0)),
+  ((true, false, 1, 1), (0, 0, 0)),
+  ((true, false, 1, 2), (0, 0, 0)),
+  ((true, false, 1, 3), (0, 0, 0)),
+  ((true, false, 1, 4), (0, 0, 0)),
+  ((true, false, 1, 5), (0, 0, 0)),
+  ((true, false, 1, 6), (0, 0, 0)),
+  ((true, false, 1, 7), (0, 0, 0)),
+  ((true, false, 2, 0), (0, 0, 0)),
+  ((true, false, 3, 0), (0, 0, 0)),
+  ((true, true, 0, 0), (0, 0, 0)),
+  ((true, true, 0, 1), (0, 0, 0)),
+  ((true, true, 0, 2), (0, 0, 0)),
+  ((true, true, 0, 3), (0, 0, 0)),
+  ((true, true, 0, 4), (0, 0, 0)),
+  ((true, true, 0, 5), (0, 0, 0)),
+  ((true, true, 0, 6), (0, 0, 0)),
+  ((true, true, 0, 7), (0, 0, 0)),
+  ((true, true, 1, 0), (0, 0, 0)),
+  ((true, true, 1, 1), (0, 0, 0)),
+  ((true, true, 1, 2), (0, 0, 0)),
+  ((true, true, 1, 3), (0, 0, 0)),
+  ((true, true, 1, 4), (0, 0, 0)),
+  ((true, true, 1, 5), (0, 0, 0)),
+  ((true, true, 1, 6), (0, 0, 0)),
+  ((true, true, 1, 7), (0, 0, 0)),
+  ((true, true, 2, 0), (0, 0, 0)),
+  ((true, true, 3, 0), (0, 0, 0))]
+
+/-! ### addresses are values: a header parsed into a copy of the stream info -/
+
+def copyUniverse : List Addr :=
+  [⟨1, 0, 0⟩, ⟨1, 1, 0⟩, ⟨2, 0, 0⟩, ⟨0, 0, 0⟩, ⟨0, 1, 0⟩, ⟨1, 4, 0⟩, ⟨1, 0, 1⟩, ⟨0, 4, 1⟩]
+
+def infoCopyDomain : List (Addr × Addr) := product copyUniverse copyUniverse
+
+/-- `newIn := *in; newIn.FromStartElement(header)`: the copy holds the header's address, the value
+it was copied from still holds its own (the model's sessions are values; this is what that means
+for the code) -/
+def infoCopyModel (i : Addr × Addr) : Addr × Addr := (infoTo (some i.2) i.1, i.1)
+
+/-! ### sasl.go: the authentication feature, for every set of mechanisms -/
+
+/-- `xmpp.SASL(…)`: requires a secured stream, prohibited once authenticated — whatever
+mechanisms it is configured with -/
+def saslFeature (mechanisms : Nat) : Feature := ⟨7, Secure, Authn, true⟩
+
+/-- every non-empty subset of five mechanisms -/
+def saslMaskDomain : List Nat := List.range' 1 31
+
+def saslMaskModel (m : Nat) : Nat × Nat × Bool :=
+  ((saslFeature m).nec.toNat, (saslFeature m).proh.toNat, (saslFeature m).negotiable)
+
 end XmppModel.StartTLS
